@@ -239,7 +239,16 @@ def arm_table(ctx, prog, label, counting=True):
                     ctx.ok('T-SKIP', key)
                 continue
             if inner_cut and not payload and not (major in (2, 3) and w == 'indef'):
-                ctx.ok('T-SKIP.inner', key, nontrivial=False)   # bookkeeping loops of the stack mode
+                # bookkeeping loops of the stack mode, one iteration each: the `for _ in 0 .. irounds` loop of the mode switch
+                # pushes exactly one None per round (T-SKIP.sim instantiates the number of rounds with 0..3)
+                pushes = [e[1] for e in o.st.events if e[0] == 'PUSH']
+                cut_bb = int(res.split(':')[1]) if res.split(':')[1].isdigit() else None
+                tb = inst['body']['blocks'][cut_bb]['t'] if cut_bb is not None else {}
+                range_loop = tb.get('k') == 'call' and 'ops::Range' in (mir.callee_path(tb) or '')
+                if range_loop and pushes != ['Option#0()']:
+                    ctx.violation('T-SKIP', '%s|switch-loop' % label, 'one round of the loop that moves the open indefinite containers onto the stack pushes %r; expected one None' % (pushes,), where)
+                else:
+                    ctx.ok('T-SKIP.inner', key, nontrivial=False)
                 continue
             if inner_cut and strdef:
                 dd = [x for x in acc_decomp(o) if x['part'] == part]
@@ -428,4 +437,13 @@ def run(ctx):
         k = twin_agreement(ctx, a_rows, n_rows)
         ctx.floor('T-SKIP.twins', 'compared cells', k, 40)
     ctx.floor('T-SKIP', 'rows', len(a_rows or []) + len(n_rows or []), 150)
-    return ('skip(): one loop iteration interpreted from arbitrary counters in both builds; the nesting algorithm as a whole (that the counters/stack land on the item boundary for every tree shape) is not decided.')
+    ctx.rules_run.append('T-SKIP.sim: the nesting algorithm simulates the item-tree semantics: from every state shape (counting: bottom run / inside indefinite containers; '
+                         'stack: every top-run pattern over {0, >=1} up to three frames, on the bottom or above a None, with and without a None on top) one iteration on every head class '
+                         'preserves "bottom run exact, no run over-counted, same number of open indefinite containers", and the loop is left exactly when nothing is outstanding')
+    from . import c06_sim
+    ka = c06_sim.sim(ctx, pa, 'alloc', True)
+    kn = c06_sim.sim(ctx, pn, 'no-alloc', False)
+    ctx.floor('T-SKIP.sim', 'alloc rows', ka, 2500)
+    ctx.floor('T-SKIP.sim', 'no-alloc rows', kn, 170)
+    return ('skip(): one loop iteration interpreted from arbitrary counters in both builds (consumption, refusals, truncation, twin agreement), and from every state shape '
+            'of the counting / stack bookkeeping against the item-tree semantics (simulation relation preserved by every step: %d + %d step rows). ' % (ka, kn)) + ('Bounded parts of the nesting argument: stack patterns of up to three frames per run and 0..3 enclosing indefinite containers at the mode switch (the step function is uniform beyond that: it only looks at the top run); counter saturation at 2^64 is outside the argument.')
